@@ -212,7 +212,8 @@ def range_rules(facts, rep):
             other = [(a_, v_) for a_, v_ in other if not (conv and a_ == "discr(TryFrom::try_from(%s))" % conv.group(1) and v_ == 0)]
             good = good and acc == {ysrc: (1980, 2107)} and not rej and not other and (ysrc == "OffsetDateTime::year(dt)" or (conv and conv.group(1) == "OffsetDateTime::year(dt)"))
             for k, acc_ in (("month", "month"), ("day", "day"), ("hour", "hour"), ("minute", "minute"), ("second", "second")):
-                good = good and ("OffsetDateTime::%s(dt)" % acc_) in show(flds[k])
+                # ... verbatim: the accessor's value (behind a widening/narrowing cast of an enum or integer at most), nothing computed from it
+                good = good and show(_strip(flds[k])) in ("OffsetDateTime::%s(dt)" % acc_, "discr(OffsetDateTime::%s(dt))" % acc_)   # (Month is an enum: `as u8` reads its discriminant)
         for p in pst:
             if outcome(p)[0] != "Ok":
                 acc, rej, other = path_bounds(p)
